@@ -29,7 +29,7 @@ def fail(ident, what, witness, wclass="value"):
 TOK = ["{{a}}", "{{a|x}}", "{{{1}}}", "[[L]]", "[http://x y]", "{|", "|-", "|}", "* ", "# ", ": ", "==h==", "''", "'''",
        "<b>", "</b>", "<nowiki/>", "<nowiki />", "<!--", "-->", "__TOC__", "~~~~", "|", "=", "!", "{{#if:x|y}}", " ", "t",
        "\n", "<pre>", "{{", "}}", "[[", "]]", "<ref>", "{{PAGENAME}}", "_", "a_b", "&#95;", "&amp;", "&", ";", "#", "\"", "-{", "}-",
-       "-{zh-hans:x}-"]
+       "-{zh-hans:x}-", "~", "~~~", "a~b"]
 INV = {v: k for k, v in _nowiki_map.items()}
 
 
@@ -155,8 +155,8 @@ for ci, c in enumerate(contents):
                     lines = (pre + c).split("\n")
                     starts = lines[1:] + ([lines[0]] if pre == "" else [])
                     unprotected = any(ln[:1] in (" ", "\t", ";") or ln.startswith("----") for ln in starts)
-                    if pkw and unprotected and ks and set(ks) <= {NodeKind.PREFORMATTED, NodeKind.LIST, NodeKind.LIST_ITEM,
-                                                                  NodeKind.HLINE}:
+                    if pkw and unprotected and set(ks) <= {NodeKind.PREFORMATTED, NodeKind.LIST, NodeKind.LIST_ITEM,
+                                                           NodeKind.HLINE}:
                         # documented deviation: with an expansion switch the page is expanded to text before it is parsed,
                         # and the quoting does not cover a blank, ';' or '----' at the start of a line
                         ident, wc = ident + "[line-start-markup-under-expansion-switch]", "known-deviation:unquoted-line-start-markup"
@@ -186,6 +186,22 @@ for pi, ptext in enumerate(["{{nwt}}", "<nowiki>q</nowiki>{{nwt}}", "<nowiki>r</
         if decode(got).count("N{{a}} [[x]]M") != ptext.count("{{nwt}}") or any(0x10203D <= ord(ch) <= 0x10FFF0 for ch in got):
             fail("c15:expand#nowiki-in-a-template-body-on-successive-pages",
                  f"page {pi} {ptext!r}: {what} gives {got!r}", {"text": ptext, "page_index": pi}, "stale-cookie")
+# comments inside a template body: the transclusion equals that of the body with the comments deleted
+for bi, body in enumerate(["a<!-- one line -->b", "a<!-- two\nlines -->b\nrest", "x<!--\n-->y<!-- c -->z", "t\n<!-- c -->\nu",
+                           "<!-- lead\n -->body {{a|1}}"]):
+    import re as _re2
+    ctx.add_page(f"Template:cm{bi}", 10, body)
+    ctx.add_page(f"Template:cn{bi}", 10, _re2.sub(r"(?s)<!--.*?-->", "", body))
+    ctx.start_page("Tt")
+    evaluations += 1
+    try:
+        with quiet_stdout():
+            a, b = ctx.expand("[{{cm%d}}]" % bi), ctx.expand("[{{cn%d}}]" % bi)
+    except Exception as ex:
+        fail("c15:comments#no-exception", f"{type(ex).__name__}: {ex}", {"template_body": body}, type(ex).__name__)
+        continue
+    if a != b:
+        fail("c15:comments#equal-to-input-with-comments-deleted", f"template body {body!r}: {a!r} vs {b!r}", {"template_body": body})
 # comments: the result equals that of the input with each comment (and the line break directly before it) deleted
 CT = ["a", "\n", "<!--c-->", "<!-- {{a}} -->", "{{a|x}}", " ", "* i", "<!--\n-->", "==h==\n"]
 clen = 3 if tier == "quick" else 4
